@@ -1,6 +1,6 @@
 """C08 - numeric equality/ordering: exactness by forbidden callees, comparison tables, mirrored arms."""
 import re
-from .core import (builds_error, CheckError, find_match, arm_region, pat_str, strip_ref, origins, only_when, pat_paths,
+from .core import (family_calls, builds_error, CheckError, find_match, arm_region, pat_str, strip_ref, origins, only_when, pat_paths,
                    Registry, CallGraph, const_str, op_local)
 
 META = {
@@ -248,8 +248,8 @@ def run(F, rep, tier):
                     if r_[0] == 'agg' and r_[1] == 'closure':
                         cmps.append(r_[2])
         cmps = cmps or list(F.closures_of(sfn))
-        raising = [cl for cl in cmps if any(builds_error(F, c2) or c2.target.rsplit('::', 1)[-1] == 'ncmp' for c2 in F.body(cl).calls)]
-        swallow = [cl for cl in cmps if any(c2.target.rsplit('::', 1)[-1] in ('unwrap_or', 'unwrap_or_default', 'unwrap_or_else') and 'Ordering' in str(c2.callee.get('g')) for c2 in F.body(cl).calls)]
+        raising = [cl for cl in cmps if any(builds_error(F, c2) or c2.target.rsplit('::', 1)[-1] == 'ncmp' for c2 in family_calls(F, cl))]
+        swallow = [cl for cl in cmps if any(c2.target.rsplit('::', 1)[-1] in ('unwrap_or', 'unwrap_or_default', 'unwrap_or_else') and 'Ordering' in str(c2.callee.get('g')) for c2 in family_calls(F, cl))]
         if sorts and raising and not swallow:
             rep.ok('R8.5', '%s comparator' % sfn, 'records an error when two elements are incomparable (ncmp / explicit error)')
         elif sorts:
